@@ -122,7 +122,8 @@ def check(ck):
     # ---- C06.2 truth table ------------------------------------------------------------------------
     K, D, L = shape.K, shape.D, shape.L
     lo, hi = spec.PREDEFINED_RANGE
-    codes = [lo - 1, lo, lo + 1, hi - 1, hi, hi + 1, 0, 1, -1, -32768, 32700, -32600, -32603, 1.5, -32000.0]
+    codes = [lo - 1, lo, lo + 1, hi - 1, hi, hi + 1, 0, 1, -1, -32768, 32700, -32600, -32603, 1.5, -32000.0,
+             float("nan"), float("inf"), float("-inf")]      # (the default backend reads NaN / Infinity: neither lies within the range)
     shapes_ = [("message+data", lambda c: {"code": K(c), "message": K("m"), "data": K("d")})]
     if ck.tier == "thorough":
         # every integer within 3 of both ends of the predefined range, a grid through it, floats next to the ends, large
@@ -278,7 +279,8 @@ def check(ck):
     # _run_request evaluated abstractly (E7) on reply texts with and without a JSON token, the transport and loads() stubbed: None only
     # for a body made of blanks (it carries no reply, hence no error); any other body reaches loads() as received and what loads
     # returns is returned - so an error reply, even to a notification, is seen by check_for_errors
-    for (txt_, flag_) in [(t_, f_) for t_ in ("", " ", "\n", "\r\n\t ", "null", "0", "false", "{}", "[]", ' {"error": {"code": 1}} ', "x", '""')
+    for (txt_, flag_) in [(t_, f_) for t_ in ("", " ", "\n", "\r\n\t ", "null", "0", "false", "{}", "[]", ' {"error": {"code": 1}} ', "x", '""',
+                                              " " * 200 + '{"error": {"code": 1}}', "\n" * 5000 + "1")
                           for f_ in (False, True)]:          # (flag_: the value of every other parameter - `notify` - both ways)
         calls_ = []
 
